@@ -12,7 +12,7 @@ import onnx_ir as ir
 
 from onnxscript.rewriter import pattern
 from onnxscript.rewriter._basics import MatchResult
-from onnxscript.rewriter._ir_utils import is_singleton_value
+from onnxscript.rewriter._ir_utils import get_numpy_value, is_singleton_value
 from onnxscript.rewriter._rewrite_rule import RewriteRuleSet
 
 
@@ -30,14 +30,20 @@ class _HardSigmoidFusionBase(pattern.RewriteRuleClassBase):
     ) -> MatchResult:
         check_result = MatchResult()
 
-        if not is_singleton_value(clip_min, 0.0, rtol=1e-4):
+        # 0, 3 and 6 are exactly representable: anything else is a different function
+        if not is_singleton_value(clip_min, 0.0, rtol=0.0):
             return check_result.fail("Swish requires min value of 0 for clip")
-        if not is_singleton_value(clip_max, 6.0, rtol=1e-4):
+        if not is_singleton_value(clip_max, 6.0, rtol=0.0):
             return check_result.fail("Swish requires max value of 6 for clip")
-        if not is_singleton_value(bias, 3.0, rtol=1e-4):
+        if not is_singleton_value(bias, 3.0, rtol=0.0):
             return check_result.fail("Swish requires bias value of 3")
-        if not is_singleton_value(divisor, 6.0, rtol=1e-4):
+        if not is_singleton_value(divisor, 6.0, rtol=0.0):
             return check_result.fail("Swish requires divisor value of 6")
+        # A single-element bias/divisor of higher rank than x broadcasts x to a higher rank
+        x_rank = x.shape.rank() if x.shape is not None else None
+        for operand in (bias, divisor):
+            if x_rank is None or get_numpy_value(operand).ndim > x_rank:
+                return check_result.fail("Swish constants must not out-rank the input")
         return check_result
 
 
